@@ -248,10 +248,37 @@ pub fn gen_cases(seed: u64, n: usize, max_len: i32, max_depth: usize, start_id: 
         // theme: 0 mixed, 1 only block-alternates (several disjoint regions), 2 only special modes,
         // 3 only before/after/alternate
         // 6: a semantic-after probe on EVERY branch (several flags resolved at one end)
-        let theme = rng.gen_range(0..7);
+        // 7: a block-alternate and further injections strictly INSIDE the region it removes (they must go with it)
+        let theme = rng.gen_range(0..8);
         let mut plan: Vec<J> = vec![];
         let mut regions: Vec<(usize, usize)> = vec![];
         let mut tries = 0;
+        if theme == 7 {
+            let openers: Vec<usize> = (0..body.len()).filter(|&i| modes_at(&body, i).contains(&"block_alt")).collect();
+            if !openers.is_empty() {
+                let i = openers[rng.gen_range(0..openers.len())];
+                let o = body[i]["o"].as_str().unwrap();
+                let e = if o == "else" { end[i] - 1 } else { end[i] };
+                let code = if o == "if" { json!([{"o":"drop"},{"o":"probe","p":0}]) } else { json!([{"o":"probe","p":0}]) };
+                let api0 = ["iter", "mod", "comp"][rng.gen_range(0..3)];
+                plan.push(json!({"p":0,"site":i,"mode":"block_alt","api":api0,"code":code,"acc":true}));
+                for _ in 0..rng.gen_range(1..4) {
+                    if e <= i + 1 {
+                        break;
+                    }
+                    let s = rng.gen_range(i + 1..e.max(i + 2).min(body.len()));
+                    let ms: Vec<&str> = modes_at(&body, s).into_iter().filter(|m| !m.contains("alt")).collect();
+                    if ms.is_empty() {
+                        continue;
+                    }
+                    let mode = ms[rng.gen_range(0..ms.len())];
+                    let p = plan.len() as u64;
+                    let api1 = ["iter", "mod"][rng.gen_range(0..2)];
+                    plan.push(json!({"p":p,"site":s,"mode":mode,"api":api1,"code":[{"o":"probe","p":p}],"acc":true}));
+                }
+            }
+            tries = 80;
+        }
         if theme == 6 {
             for i in 0..body.len() {
                 let o = body[i]["o"].as_str().unwrap();
